@@ -289,6 +289,27 @@ def run_config(chk, cfg):
         elif role == "observer":
             if fn.ret_ty in ("i1", "i8", "i32") and any(a.field in ("readi", "writei") for a in acc):
                 check_observer(chk, m, fn, cfg)
+    # roles are transitive inside the ring-buffer module: an API function of ringbuf.c must not act for both sides
+    prog = flow.Program(mods)
+    direct = {}
+    for m, fn, acc in fns:
+        direct[fn.name] = classify(fn, acc)
+    for m in mods:
+        if not m.unit.endswith("ringbuf.c"):
+            continue
+        for fn in m.defined_functions():
+            rs = set()
+            for g in prog.closure(fn):
+                r = direct.get(g.name)
+                if r in ("producer", "consumer"):
+                    rs.add(r)
+            if direct.get(fn.name) == "init" or not rs:
+                continue
+            chk.ob("R2.single-writer", "%s[%s] transitive role" % (fn.name, cfg), len(rs) == 1,
+                   "%s acts (through its callees) as %s: %s" % (fn.name, " and ".join(sorted(rs)),
+                                                              "one side only" if len(rs) == 1 else
+                                                              "a producer-side API function that also advances readi races with the consumer and "
+                                                              "destroys unread bytes"), fn.loc, fn.name)
     chk.expect("R2", "producer functions [%s]" % cfg, len(roles.get("producer", [])), 1)
     chk.expect("R2", "consumer functions [%s]" % cfg, len(roles.get("consumer", [])), 1)
     chk.expect("R1", "publishing paths [%s]" % cfg, n_pub, 2)
